@@ -56,6 +56,22 @@ def docs():
                                 "responses": {"200": {"description": "d", "content": {"text/json": {"schema": ref("Blob")}}}, "202": {"description": "d", "content": {"application/x-log": {"schema": {"type": "string"}}}}}}},
                "/j": {"post": {"operationId": "postJ", "requestBody": {"required": True, "content": {"application/x-thing": {"schema": ref("Log")}}},
                                "responses": {"200": {"description": "d", "content": {"application/x-thing": {"schema": ref("Log")}}}}}}})
+    # override keys that are not a plain lower-case type/subtype: a key with parameters, upper-case letters, a malformed key
+    D["media-odd"] = gen.base_doc(
+        {"Blob": obj(name={"type": "string"}), "Log": obj(line={"type": "string"})},
+        paths={"/v": {"post": {"operationId": "postV", "requestBody": {"required": True, "content": {"application/vnd.acme.report; version=2": {"schema": ref("Log")}}},
+                               "responses": {"200": {"description": "d", "content": {"application/vnd.acme.report; version=2": {"schema": ref("Blob")}}}}}},
+               "/u": {"put": {"operationId": "putU", "requestBody": {"required": True, "content": {"Application/X-UPPER": {"schema": ref("Log")}}},
+                              "responses": {"200": {"description": "d", "content": {"Application/X-UPPER": {"schema": ref("Log")}}}}}},
+               "/m": {"post": {"operationId": "postM", "requestBody": {"required": True, "content": {"openapi/python/client": {"schema": ref("Blob")}}},
+                               "responses": {"200": {"description": "d", "content": {"openapi/python/client": {"schema": ref("Blob")}}}}}}})
+    # classes whose snake-case name is a Python builtin / keyword-like word get a module name that differs from it (format_, type_, ...)
+    D["builtin-names"] = gen.base_doc(
+        {"Format": {"type": "string", "enum": ["json", "xml"]}, "Type": {"type": "integer", "enum": [1, 2]}, "Filter": {"type": "string", "enum": ["on", "off"], "default": "on"},
+         "List": obj(format=ref("Format"), type=ref("Type"), filter=ref("Filter"), id={"type": "integer"}),
+         "Object": obj(items={"type": "array", "items": ref("List")}, inline={"type": "string", "enum": ["i1", "i2"]})},
+        paths={"/l": {"get": {"operationId": "getList", "parameters": [{"name": "format", "in": "query", "schema": ref("Format")}, {"name": "type", "in": "query", "schema": ref("Type")}],
+                              "responses": {"200": {"description": "d", "content": {"application/json": {"schema": ref("Object")}}}}}}})
     D["titles"] = gen.base_doc(
         {"Outer": obj(inner={"type": "object", "title": "Inner Thing", "properties": {"deep": {"type": "object", "title": "Deep One", "properties": {"v": {"type": "integer"}}},
                                                                                "mode": {"type": "string", "title": "Mode", "enum": ["x", "y"]}}}, plain=obj(z={"type": "string"}))},
@@ -100,7 +116,7 @@ def DOCS():
 CONTEXTS = {"none": {}, "literal_enums": {"literal_enums": True}, "docstrings": {"docstrings_on_attributes": True}, "attr-prefix": {"field_prefix": "attr_"},
             "all-tags": {"generate_all_tags": True}, "no-title-prefix": {"use_path_prefixes_for_title_model_names": False}}
 OPTIONS = ["project_name_override", "package_name_override", "both_name_overrides", "package_version_override", "class_override_class", "class_override_module",
-           "class_override_both", "class_override_merge", "field_prefix_attr", "field_prefix_f", "use_path_prefixes_off", "literal_enums", "docstrings_on_attributes", "generate_all_tags",
+           "class_override_both", "class_override_enum", "class_override_merge", "field_prefix_attr", "field_prefix_f", "use_path_prefixes_off", "literal_enums", "docstrings_on_attributes", "generate_all_tags",
            "content_type_overrides", "meta_flavours", "file_encoding_utf16", "file_encoding_utf8sig", "post_hooks", "output_path", "custom_templates"]
 
 
@@ -110,11 +126,15 @@ def cases(tier):
             for cname in CONTEXTS:
                 if dname == "baseline31" and (cname != "none" or opt in ("custom_templates",)) and tier == "quick":
                     continue
-                if opt == "content_type_overrides" and dname != "media":
+                if (opt == "content_type_overrides") != (dname in ("media", "media-odd")) and (opt == "content_type_overrides" or dname == "media-odd"):
                     continue
                 if (opt == "class_override_merge") != (dname == "merge-enums") and (opt == "class_override_merge" or dname == "merge-enums"):
                     continue
-                if opt.startswith("class_override") and dname not in ("shop", "baseline31", "merge-enums"):
+                if opt == "class_override_enum" and dname not in ("shop", "builtin-names"):
+                    continue
+                if opt.startswith("class_override") and dname not in ("shop", "baseline31", "merge-enums", "builtin-names"):
+                    continue
+                if dname == "builtin-names" and opt not in ("class_override_enum", "literal_enums", "field_prefix_attr", "generate_all_tags", "docstrings_on_attributes"):
                     continue
                 if dname == "merge-enums" and opt not in ("class_override_merge", "literal_enums", "generate_all_tags"):
                     continue
@@ -137,7 +157,10 @@ def behaviour(res, rename=None):
     import httpx
     out = {"models": {}, "endpoints": {}}
     with Sandbox(res.pkg_tree()) as sb:
-        models = sb.mod("models")
+        try:
+            models = sb.mod("models")
+        except Exception as exc:  # noqa: BLE001   a package that does not import has no behaviour: report that as its behaviour
+            return {"models": f"models package does not import: {type(exc).__name__}: {str(exc)[:120].replace(sb.pkg, 'pkg')}", "endpoints": {}}
         for m in res.models:
             cls = getattr(sb.mod(f"models.{m['module']}"), m["class"], None)
             if cls is None:
@@ -299,6 +322,26 @@ def run_case(p):
         left = [e["class"] for e in new.enums if e["class"] != "Colour"]
         if left or not new.enums:
             V("override-not-applied", "models", f"enum classes after the merge: {[e['class'] for e in new.enums]}")
+    elif opt == "class_override_enum":
+        # rename an enumeration: a class name and a module name that is NOT derived from it
+        target = "Status" if p["doc"] == "shop" else "Format"
+        ov = {target: {"class_name": "AccountState", "module_name": "account_states"}}
+        base = _gen(doc, ctx)
+        new = _gen(doc, ctx, class_overrides=ov)
+        c = crashed(base, new)
+        if c:
+            return c
+        try:
+            bb, nb = behaviour(base), behaviour(new)
+        except Exception as exc:  # noqa: BLE001
+            V("renaming-breaks-package", "package", f"behaviour could not be observed: {type(exc).__name__}: {exc}")
+            bb = nb = None
+        steps += 2
+        if bb != nb:
+            V("renaming-changes-behaviour", "behaviour", "behaviour differs: " + _beh_diff(bb, nb))
+        claim = next((e for e in new.enums if e["name"].endswith("/" + target)), None)
+        if claim is None or claim["class"] != "AccountState" or claim["module"] != "account_states":
+            V("override-not-applied", "models", f"enum override gave {claim}")
     elif opt.startswith("class_override"):
         target = "Order" if p["doc"] == "shop" else "AModel"
         ov = {}
@@ -413,6 +456,8 @@ def run_case(p):
             V("first-tag-only", "api", f"{n_base} endpoint modules with the option off for {len(tagged)} operations")
     elif opt == "content_type_overrides":
         ov = {"application/zip": "application/octet-stream", "text/json": "application/json", "application/x-log": "text/plain", "application/x-thing": "application/json"}
+        if p["doc"] == "media-odd":
+            ov = {"application/vnd.acme.report; version=2": "application/json", "Application/X-UPPER": "application/json", "openapi/python/client": "application/json"}
         new = _gen(doc, ctx, content_type_overrides=ov)
         twin_doc = json.loads(json.dumps(doc))
         for path, item in twin_doc["paths"].items():
@@ -448,10 +493,15 @@ def run_case(p):
         for k, v in nb["endpoints"].items():
             if isinstance(v, list) and isinstance(v[0], dict):
                 cts = [h[1] for h in v[0]["headers"] if h[0] == "content-type"]
-                if k.startswith("put /zip") and cts != ["application/zip"]:
-                    V("override-sent-type", "wire", f"{k}: Content-Type {cts} (declared application/zip)")
-                if k.startswith("post /j") and cts != ["application/x-thing"]:
-                    V("override-sent-type", "wire", f"{k}: Content-Type {cts} (declared application/x-thing)")
+                for path, item in doc["paths"].items():
+                    for m, op in item.items():
+                        if k.startswith(f"{m} {path} ") and isinstance(op, dict) and op.get("requestBody"):
+                            declared = list(op["requestBody"]["content"])[0]
+                            if cts != [declared]:
+                                V("override-sent-type", "wire", f"{k}: Content-Type {cts} (declared {declared})")
+        n_ops = sum(1 for item in doc["paths"].values() for m in item if m in ("get", "put", "post", "delete", "patch"))
+        if len(new.endpoints) != n_ops:
+            V("override-not-applied", "api", f"{len(new.endpoints)} operations generated for {n_ops} declared: {[d.short()[:100] for d in new.diags][:3]}")
         # decoding behaves like the target type
         tb = behaviour(twin)
         for k in nb["endpoints"]:
@@ -611,7 +661,13 @@ def _first_line_diff(a, b):
 
 
 def _beh_diff(a, b):
+    if a is None or b is None:
+        return "behaviour not observable"
     for sec in ("models", "endpoints"):
+        if isinstance(a[sec], str) or isinstance(b[sec], str):
+            if a[sec] != b[sec]:
+                return f"{sec}: {str(a[sec])[:300]} != {str(b[sec])[:300]}"
+            continue
         for k in sorted(set(a[sec]) | set(b[sec])):
             if a[sec].get(k) != b[sec].get(k):
                 return f"{sec} {k}: {json.dumps(a[sec].get(k), default=str)[:300]} != {json.dumps(b[sec].get(k), default=str)[:300]}"
